@@ -109,28 +109,37 @@ def check_pipeline(ctx: Ctx):
             ctx.decide("R01.2", f, out.node, f"{f.qual}:input={cls}:missing-stage-object", "a required approximator/matcher that is missing is rejected", out.kind == "raise", {"outcome": out.kind}, nontrivial=False)
 
 
+def _run_rule(ctx, name, fn):
+    """a sub-rule that cannot be evaluated is recorded as undecided; the remaining rules still run"""
+    try:
+        return fn(ctx)
+    except (Undecided, AnchorMissing) as e:
+        ctx.undecided(name, None, None, f"{name}:analysis", f"{type(e).__name__}: {e}")
+        return 0
+
+
 def check(ctx: Ctx):
     # instance counts and label tuples come from the label enumeration helpers (R09.6)
     from . import c03 as _c03e
     from .labelenum import check_label_enumeration as _cle
 
     _c03e._guarded(ctx, "R09.6", _cle)
-    c08.check_pipeline_typestate(ctx)  # R01.1 (same typestate engine; obligations recorded under R08.4 ids)
-    check_pipeline(ctx)
+    _run_rule(ctx, "check_pipeline_typestate", c08.check_pipeline_typestate)  # R01.1 (same typestate engine; obligations recorded under R08.4 ids)
+    _run_rule(ctx, "check_pipeline", check_pipeline)
     # R01.3 delegation
-    c03.check_no_pruning(ctx)
+    _run_rule(ctx, "check_no_pruning", c03.check_no_pruning)
     c03._guarded(ctx, "R03.7", c03.check_candidate_call)
     c03._guarded(ctx, "R03.1", c03.check_codec)
     c03._guarded(ctx, "R03.2", c03.check_candidates)
     c03._guarded(ctx, "R03.3", c03.check_beats)
     c03._guarded(ctx, "R03.4", c03.check_naive)
-    c02.check_evaluate(ctx)
-    c02.check_calculators(ctx)
-    c05.check_dispatch(ctx)
-    c05.check_library_calls(ctx)
-    c06.check_kernels(ctx)
-    c06.check_selection(ctx)
-    c06.check_registry(ctx)
+    _run_rule(ctx, "check_evaluate", c02.check_evaluate)
+    _run_rule(ctx, "check_calculators", c02.check_calculators)
+    _run_rule(ctx, "check_dispatch", c05.check_dispatch)
+    _run_rule(ctx, "check_library_calls", c05.check_library_calls)
+    _run_rule(ctx, "check_kernels", c06.check_kernels)
+    _run_rule(ctx, "check_selection", c06.check_selection)
+    _run_rule(ctx, "check_registry", c06.check_registry)
     from . import c04, c07, c09
 
     c03._guarded(ctx, "R09.1", c09.check_codec_width)
@@ -143,11 +152,12 @@ def check(ctx: Ctx):
     c03._guarded(ctx, "R05.4", c05.fitting_uint_table)
     c03._guarded(ctx, "R05.5", c05.check_stateless)
     c03._guarded(ctx, "R10.2", c10.check_bbox)
+    c03._guarded(ctx, "R10.5", c10.check_padded_starts)
     c03._guarded(ctx, "R10.1", c10.check_crop_data)
     c03._guarded(ctx, "R10.4", c10.check_pair_constructor)
-    c04.check_chained_replacement(ctx)
+    _run_rule(ctx, "check_chained_replacement", c04.check_chained_replacement)
     c03._guarded(ctx, "R04.2", c04.check_relabel)
-    c07.check_no_wraparound(ctx)
+    _run_rule(ctx, "check_no_wraparound", c07.check_no_wraparound)
     c03._guarded(ctx, "R07.1", c07.check_chain)
     c03._guarded(ctx, "R07.4", c07.check_edt)
     c03._guarded(ctx, "R08.4", c08.check_zero_helper)
